@@ -86,31 +86,21 @@ LEMMAS = [
                                         z3.And(z3.fpGEQ(p, O["fadd"](c, e)), z3.fpGT(p, c))),
           "fl(p - c) > e > 0  =>  p >= fl(c + e) and p > c   (the early-return test implies both C01 clauses)",
           hard=True),
-    Lemma("fadd-feq-congruence", ("fadd", "fadd"),
-          lambda O, K, x, y, x2, y2: z3.Implies(z3.And(z3.fpEQ(x, x2), z3.fpEQ(y, y2)),
-                                             z3.Or(z3.fpEQ(O["fadd"](x, y), O["fadd"](x2, y2)),
-                                                   z3.And(z3.fpIsNaN(O["fadd"](x, y)), z3.fpIsNaN(O["fadd"](x2, y2))))),
-          "numerically equal operands give numerically equal sums (only the sign of a zero can differ)"),
-    Lemma("fsub-feq-congruence", ("fsub", "fsub"),
-          lambda O, K, x, y, x2, y2: z3.Implies(z3.And(z3.fpEQ(x, x2), z3.fpEQ(y, y2)),
-                                             z3.Or(z3.fpEQ(O["fsub"](x, y), O["fsub"](x2, y2)),
-                                                   z3.And(z3.fpIsNaN(O["fsub"](x, y)), z3.fpIsNaN(O["fsub"](x2, y2))))),
-          "numerically equal operands give numerically equal differences"),
+    # numerically equal operands (fp.eq) are either identical or zeros of different sign; together with
+    # congruence of the uninterpreted functions these two facts give "fp.eq operands => fp.eq results"
+    Lemma("fadd-zero-left-identity", ("fadd",),
+          lambda O, K, x, y: z3.Implies(z3.And(z3.fpIsZero(x), nn(y)), z3.fpEQ(O["fadd"](x, y), y)),
+          "(+-0) + y == y"),
+    Lemma("fsub-zero-left-negates", ("fsub",),
+          lambda O, K, x, y: z3.Implies(z3.And(z3.fpIsZero(x), nn(y)), z3.fpEQ(O["fsub"](x, y), z3.fpNeg(y))),
+          "(+-0) - y == -y"),
     Lemma("fdiv-by-two-sign", ("fdiv",),
           lambda O, K, x, y: z3.Implies(z3.And(nn(x), y == K.TWO), nn(O["fdiv"](x, y))),
           "x / 2 is NaN only if x is"),
 ]
 
 # argument pattern of the multi-op lemma: fsub(p, c) and fadd(c, e) share c
-def _pair(a, b):
-    if a.get_id() >= b.get_id():
-        return None
-    if not (a.arg(0).eq(b.arg(0)) or a.arg(1).eq(b.arg(1))):
-        return None
-    return (a.arg(0), a.arg(1), b.arg(0), b.arg(1))
-
-
-MULTI_SHAPE = {"fadd-feq-congruence": _pair, "fsub-feq-congruence": _pair, "fsub-gap-vs-fadd": lambda fsub_app, fadd_app: (
+MULTI_SHAPE = {"fsub-gap-vs-fadd": lambda fsub_app, fadd_app: (
     (fsub_app.arg(0), fsub_app.arg(1), fadd_app.arg(1)) if fsub_app.arg(1).eq(fadd_app.arg(0)) else None)}
 
 
